@@ -48,7 +48,8 @@ def plans_for(rng, tier):
     # resume after plain prefix
     for _ in range(3 if tier == "quick" else 6):
         pre = history.gen_history(rng, history.PLAIN, rng.randint(1, 5))
-        fin = rng.choice([["bfs", None, None, None], ["dfs", None, None, None], ["min", None, None, False], ["min", None, None, True], ["attr", None]])
+        fin = rng.choice([["bfs", None, None, None], ["dfs", None, None, None], ["min", None, None, False], ["min", None, None, True], ["attr", None],
+                          ["bfs", None, rng.randint(0, 3), None], ["dfs", None, rng.randint(0, 3), None]])
         P.append(["prefix", pre, fin])
     return P
 
@@ -173,9 +174,14 @@ def run_case(case):
                 except AssertionError as e:
                     res.v(f"assertion:{tag}", f"{fin} after prefix raised AssertionError {e}", ctx=ctx)
                     continue
+                limited = fin[0] in ("bfs", "dfs") and fin[2] is not None
                 if r is not True:
-                    res.v(f"not-complete:{tag}", f"unrestricted {fin} after prefix returned {r}", ctx=ctx)
+                    if not limited:
+                        res.v(f"not-complete:{tag}", f"unrestricted {fin} after prefix returned {r}", ctx=ctx)
                     continue
+                if limited:
+                    tag += ":level-limited"
+                    res.c("level_limited_completions")
                 judge_minimal(sd, ref, mins_k, res, tag, bb, ctx)
                 res.c("prefix_resumes")
         except bb.Aborted as e:
